@@ -18,7 +18,7 @@ where is_entry(p) holds exactly for the names a reader looks up
 import z3
 
 from ..pyvc import types as Ty
-from ..pyvc.contract import Contract
+from ..pyvc.contract import Contract, Loop
 from ..pyvc.engine import ObjT, Obj, Ref, PyConst, Unsupported
 from ..pyvc.types import V, Int, Bool, Key
 
@@ -180,3 +180,85 @@ set_flat = mk("flat-key", Ty.Key, "self._path.joinpath(old(k))")
 set_split = mk("split-key", Ty.Tuple([Ty.Key, Ty.Key]), "self._path.joinpath(k[0], k[1])")
 
 CONTRACTS = [set_flat, set_split]
+
+
+# ------------------------------------------------------------------ reader
+def x_exists(engine, st, args, node, kw):
+    path = engine.keyterm(engine.deref(st, args[0]))
+    stt, _ = _get_file(engine, st, path)
+    return V(Bool, [stt != 0])
+
+
+def x_open_any(engine, st, args, node, kw):
+    mode = args[1].val if len(args) > 1 and isinstance(args[1], PyConst) else "r"
+    if "w" in mode:
+        return x_open(engine, st, args, node, kw)
+    from ..pyvc.engine import NeedSplit, RaiseSignal
+
+    path = engine.keyterm(engine.deref(st, args[0]))
+    stt, _ = _get_file(engine, st, path)
+    absent = stt == 0
+    d = st.decided(absent)
+    if d is None:
+        raise NeedSplit(absent)
+    if d:
+        raise RaiseSignal("FileNotFoundError")
+    ob = Obj("file", {"path": V(Key, [path]), "pending": V(Key, [z3.IntVal(0)])})
+    i = engine.new_id()
+    st.heap[i] = ob
+    return Ref(i, ObjT("file", {}))
+
+
+def x_load(engine, st, args, node, kw):
+    """pickle.load: the stored value of a complete file; EOFError/UnpicklingError
+    on a partial one (assumed: a strict prefix of a pickle never unpickles)."""
+    from ..pyvc.engine import NeedSplit, RaiseSignal
+
+    f = engine.deref(st, args[0])
+    path = f.fields["path"].term
+    stt, val = _get_file(engine, st, path)
+    complete = stt == 2
+    d = st.decided(complete)
+    if d is None:
+        raise NeedSplit(complete)
+    if not d:
+        raise RaiseSignal("EOFError")
+    return V(Key, [val])
+
+
+def x_noop(engine, st, args, node, kw):
+    return Ty.mk_none()
+
+
+DiskRT = ObjT("DiskDict", {"_mem_cache": Ty.Map(Ty.Key, Ty.Key), "_directory": Ty.Opt(Ty.Key), "_path": Ty.Key, "max_retries": Ty.Int, "retry_delay": Ty.Real})
+EXT_R = dict(EXT)
+EXT_R.update({"*.exists": x_exists, "open": x_open_any, "pickle.load": x_load, "time.sleep": x_noop})
+
+
+def mk_get(variant, ktype, fname_expr, memkey):
+    return Contract(
+        target="cotengra.utils:DiskDict.__getitem__", variant=variant, props=["C15", "C14"],
+        self_type=DiskRT, params={"k": ktype},
+        ghost={"fs": (FsT, "None")},
+        externals=EXT_R, assumptions=ASSUME,
+        lets={"FN": fname_expr},
+        requires=["self._directory is not None", "self.max_retries >= 1", RECOVERABLE,
+                  "forall(lambda p: 0 <= fs[p].st and fs[p].st <= 2)"],
+        returns=Ty.Key,
+        # a reader never sees a partial entry: it gets the in-memory value, the complete
+        # stored value, or 'missing' (KeyError) - no read error is possible
+        raises={"KeyError": f"not ({memkey} in old(self._mem_cache)) and old(fs[FN].st) == 0"},
+        modifies=["self._mem_cache"],
+        nloops=1,
+        # every attempt on a complete file returns: the loop never reaches a second attempt
+        loops={0: Loop(pos="att", inv=["att == 0", RECOVERABLE, "fs[FN].st == 2", f"not ({memkey} in old(self._mem_cache))"])},
+        ensures=[
+            f"implies({memkey} in old(self._mem_cache), result == old(self._mem_cache[{memkey}]))",
+            f"implies(not ({memkey} in old(self._mem_cache)), fs[FN].st == 2 and result == fs[FN].val)",
+            RECOVERABLE,
+        ],
+    )
+
+
+get_flat = mk_get("flat-key", Ty.Key, "self._path.joinpath(old(k))", "old(k)")
+CONTRACTS.append(get_flat)
